@@ -70,7 +70,7 @@ UNROLL = {1: 4, 2: 2, 3: 2}
 NEEDLE_SETS = {
     1: [[0x61], [0x00], [0x80], [0xFF]],
     2: [[0x61, 0x62], [0x61, 0x61], [0x00, 0xFF]],
-    3: [[0x61, 0x62, 0x63], [0x61, 0x61, 0x61], [0x61, 0x62, 0x61], [0x00, 0x80, 0xFF]],
+    3: [[0x61, 0x62, 0x63], [0x61, 0x61, 0x61], [0x61, 0x62, 0x61], [0x00, 0x80, 0xFF], [0x61, 0x61, 0x62], [0x61, 0x62, 0x62]],
 }
 
 
@@ -561,6 +561,10 @@ def gen_ppfind(rng, tier, budget, pre=False):
         needles = [n_ for n_ in words([0x61, 0x62], 4 if tier == "quick" else 5, minlen=2)]
         needles += [[0x61, 0x62, 0x63, 0x64, 0x65, 0x66, 0x67], [0x61] * 9, ([0x61, 0x62] * 6)[:11],
                     [0x78, 0x79] + [0x61] * 10]
+        # pair bytes with special values (0x00 / 0xFF / 0x80 as first or second pair byte): lane
+        # arithmetic that mixes DATA bytes with comparison masks goes wrong exactly there
+        needles += [[0x00, 0x61], [0x61, 0x00], [0xFF, 0x61], [0x61, 0xFF], [0x00, 0xFF], [0xFF, 0x00], [0x80, 0x00, 0x61],
+                    [0x61, 0x80, 0x00], [0x00, 0x00, 0x01], [0x01, 0x00, 0x00], [0xFF, 0xFF, 0xFE, 0x00]]
         for needle in needles:
             L = len(needle)
             pairs = [(0, 1), (1, 0), (0, L - 1), (L - 1, 0)]
@@ -573,6 +577,9 @@ def gen_ppfind(rng, tier, budget, pre=False):
                     hays = []
                     for _ in range(3 if tier == "quick" else 8):
                         hays.append([rng.choice(sorted(set(needle))) for _ in range(H)])
+                    if min(needle) == 0 or max(needle) >= 0x80:
+                        hays.append([rng.choice(sorted(set(needle) | {0x00, 0xFF, 0x2E, 0x80})) for _ in range(H)])
+                        hays.append([rng.choice([0x2E, 0x61, 0x7A]) for _ in range(H)])
                     hays.append([0x2E] * H)
                     # planted: in the last overlapping chunk and in the final needle.len() bytes
                     for posn in sorted(set([H - L, max(0, H - L - 1), max(0, H - minlen), 0, (H - L) // 2])):
@@ -1036,7 +1043,7 @@ def gen_iter(rng, tier, budget, count_heavy=False):
                     # the 2- and 3-needle iterators, incl. duplicate needles (the haystack
                     # only contains the first needle)
                     if not count_heavy and (len(ops) <= 3 or n % 5 == 0):
-                        for nd in ("6161", "6162", "616161", "616261", "626161"):
+                        for nd in ("6161", "6162", "616161", "616261", "626161", "2e2e61", "2e6161", "612e2e", "2e612e", "2e61", "612e"):
                             yield ("iterd %s %s %d %s %s" % (picked, nd, rng.randrange(64), hx(hay), ops or "-"),
                                    dict(cfg=variant, family="iterd-small-multi", untraced_widths=UNTRACED.get(picked)))
         if budget and n >= budget:
@@ -1716,7 +1723,10 @@ def g_c13(rng, tier, budget):
         yield ("fnew avx2 auto default %s" % nx, dict(meta))
         yield ("rfind avx2 %s 0 %s" % (nx, "r64x7a"), dict(meta))
     # complete traversals with very many matches (per-match overhead must stay constant)
-    for nm, nx, m, hxpr, n in (("dense", "6162", 2, rep("6162", M // 2), M), ("spaced", rep("61", 40), 40, rep("61" * 40 + "7a", M // 41), (M // 41) * 41),
+    M4 = 4 * M
+    for nm, nx, m, hxpr, n in (("dense", "6162", 2, rep("6162", M // 2), M),
+                               ("free-head-then-matches", "6162636465666768", 8, join_parts([rep("7a", M4 // 2), rep("6162636465666768", M4 // 16)]), M4),
+                               ("matches-then-free-tail", "6162636465666768", 8, join_parts([rep("6162636465666768", M4 // 16), rep("7a", M4 // 2)]), M4), ("spaced", rep("61", 40), 40, rep("61" * 40 + "7a", M // 41), (M // 41) * 41),
                                ("empty-needle", "-", 0, rep("7a", M // 8), M // 8)):
         hb, nb = expand(hxpr), expand(nx)
         meta = dict(cfg="host", family="c13-huge-iter-" + nm, size=n + m, tbound_ns=C13_NS_PER_BYTE * (n + m) + C13_NS_CONST)
@@ -1949,3 +1959,70 @@ def gen_surface_ppforeign(rng, tier):
 
 
 _wrap("C05", gen_surface_ppforeign)
+
+
+# inputs beyond 2^32 bytes (lazily mapped zero pages): 32-bit accumulators, offsets and counters
+G32 = 2 ** 32
+
+
+def gen_giant(kind):
+    def g(rng, tier):
+        if kind == "count":
+            yield ("giant count %d 4" % (G32 + 4133), dict(family="giant-count", modelless=True))
+            yield ("giant count %d 0" % (G32 + 64), dict(family="giant-count", modelless=True))
+        elif kind == "find":
+            yield ("giant find %d %d" % (G32 + 200, G32 + 101), dict(family="giant-find", modelless=True))
+            yield ("giant find %d %d" % (G32 + 200, G32 - 1), dict(family="giant-find", modelless=True))
+        elif kind == "rfind":
+            yield ("giant rfind %d 5" % (G32 + 200), dict(family="giant-rfind", modelless=True))
+            yield ("giant rfind %d %d" % (G32 + 200, G32 + 3), dict(family="giant-rfind", modelless=True))
+        else:
+            nd = hx(list(b"ABCDEFGHIJKLMNOPQRSTUVWXYZ0123456789@Q"))
+            yield ("giant memmem %d %s %d 1000,%d,%d,%d" % (G32 + 2 ** 27, nd, G32 + 2 ** 26, 2 ** 31, 2 ** 31 + 100, G32),
+                   dict(family="giant-memmem", modelless=True))
+            yield ("giant memmem %d %s %d -" % (G32 + 2 ** 20, nd, G32 + 5), dict(family="giant-memmem", modelless=True))
+            yield ("giant memmem %d 4142 %d -" % (G32 + 2 ** 20, G32 + 5), dict(family="giant-memmem", modelless=True))
+    return g
+
+
+_wrap("C07", gen_giant("count"))
+_wrap("C01", gen_giant("find"))
+_wrap("C02", gen_giant("rfind"))
+_wrap("C03", gen_giant("memmem"))
+_wrap("C14", gen_giant("memmem"))
+
+
+def gen_single_byte_finders(rng, tier):
+    """every one-byte needle (and two-byte needles over special values) through the ownership
+    conversions, reading `needle()` back after each"""
+    for b in range(256):
+        hay = [0x2E, b, 0x2E, (b + 1) % 256, b]
+        prog = "n,f:%s,o,n,f:%s,k,n,r,n,o,n,i:%s" % (hx(hay), hx(hay), hx(hay))
+        yield ("finderops avx2 auto %02x %s" % (b, prog), dict(cfg="host", family="finderops-1byte"))
+        yield ("finderrevops avx2 %02x %s" % (b, prog), dict(cfg="host", family="finderrevops-1byte"))
+    for a_ in (0x00, 0x7F, 0x80, 0xFF, 0x61):
+        for b in (0x00, 0xFF, 0xFE, 0x01):
+            hay = [a_, b, a_, a_, b, 0x2E]
+            prog = "n,o,n,f:%s,k,n,r,n,i:%s" % (hx(hay), hx(hay))
+            for (variant, cfg) in MM_CFGS_QUICK[:3]:
+                yield ("finderops %s auto %02x%02x %s" % (cfg, a_, b, prog), dict(cfg=variant, family="finderops-2byte"))
+                yield ("finderrevops %s %02x%02x %s" % (cfg, a_, b, prog), dict(cfg=variant, family="finderrevops-2byte"))
+
+
+_wrap("C16", gen_single_byte_finders)
+
+
+def gen_pair_long(rng, tier):
+    """`Pair::new` on needles longer than the 255-byte window (rarest byte around the edge)"""
+    common = list(b"etaoinshrdlu ")
+    for L in (255, 256, 257, 258, 300, 1000):
+        for k in (253, 254, 255, 256, 257, L - 1):
+            if k >= L:
+                continue
+            needle = [common[t % len(common)] for t in range(L)]
+            needle[k] = 0x51
+            yield ("pair default %s" % hx(needle), dict(family="pair-long"))
+            yield ("pairreport %s 0 %d" % (hx(needle), min(k, 255)), dict(cfg="host", family="pairreport-long"))
+
+
+_wrap("C12", gen_pair_long)
